@@ -69,7 +69,10 @@ static Verdict run_c07(const Case &c)
       bytes pre = expand(len * 31 + 7, 64, 0);
       bytes file = expand(99, pos, 0);
       file.insert(file.end(), m.begin(), m.end());
-      got = wapi::hash_filebuf(alg, file, pos, refill, prefix ? &pre : NULL);
+      bytes other = expand(len * 5 + 11, (size_t)c.geti("otherlen"), 0);
+      if (c.geti("otherlen") > 0)
+        v.classes.push_back("second_hash_buffer_alive");
+      got = wapi::hash_filebuf(alg, file, pos, refill, prefix ? &pre : NULL, c.geti("otherlen") > 0 ? &other : NULL);
       bytes whole;
       if (prefix)
         whole = pre;
@@ -127,6 +130,8 @@ static Case gen_c07()
     c.seti("refill", refill);
     c.seti("pos", g::coin(50) ? 0 : g::range(0, 100));
     c.seti("prefix", g::coin(50) ? 1 : 0);
+    if (g::coin(25))
+      c.seti("otherlen", g::range(1, 400));
   }
   else
   {
